@@ -631,6 +631,17 @@ impl {node_enum_name} {{
         let nonterminal_kind_enum_name = &self.nonterminal_kind_enum_name;
         let parent_type_name = constructor_name.type_name();
         let constructor_name = constructor_name.to_string();
+        let defined_identifiers = self.file.get_defined_identifiers();
+        let get_var_name = |field_name: &str, field_index: usize| -> String {
+            let mut var_name = format!("{field_name}_{field_index}");
+            // A unit-like or tuple struct is also an item in the value namespace,
+            // so a `let` with the name of such a struct would be a pattern
+            // instead of a new binding.
+            while defined_identifiers.contains(&var_name) {
+                var_name.push('_');
+            }
+            var_name
+        };
         let child_vars: String = fields
             .iter()
             .enumerate()
@@ -638,14 +649,14 @@ impl {node_enum_name} {{
             .map(|(field_index, field)| match (&field.name, &field.symbol) {
                 (IdentOrUnderscore::Underscore(_), _) => "nodes.pop().unwrap();\n".to_owned(),
                 (IdentOrUnderscore::Ident(field_name), IdentOrTerminalIdent::Ident(field_type)) => {
-                    let field_name = &field_name.name;
+                    let var_name = get_var_name(&field_name.name, field_index);
                     let field_type_name = &field_type.name;
-                    format!("let {field_name}_{field_index} = Box::new({field_type_name}::try_from(nodes.pop().unwrap()).ok().unwrap());\n")
+                    format!("let {var_name} = Box::new({field_type_name}::try_from(nodes.pop().unwrap()).ok().unwrap());\n")
                 },
                 (IdentOrUnderscore::Ident(field_name), IdentOrTerminalIdent::Terminal(field_type)) => {
-                    let field_name = &field_name.name;
+                    let var_name = get_var_name(&field_name.name, field_index);
                     let try_into_method_name = self.node_to_terminal_method_names.get(&field_type.name).unwrap();
-                    format!("let {field_name}_{field_index} = nodes.pop().unwrap().{try_into_method_name}().ok().unwrap();\n")
+                    format!("let {var_name} = nodes.pop().unwrap().{try_into_method_name}().ok().unwrap();\n")
                 }
             })
             .collect();
@@ -659,7 +670,8 @@ impl {node_enum_name} {{
                 IdentOrUnderscore::Underscore(_) => None,
                 IdentOrUnderscore::Ident(field_name) => {
                     let field_name = &field_name.name;
-                    Some(format!("{field_name}: {field_name}_{field_index},"))
+                    let var_name = get_var_name(field_name, field_index);
+                    Some(format!("{field_name}: {var_name},"))
                 }
             })
             .collect::<Vec<_>>()
